@@ -200,8 +200,11 @@ CLAIMED = {
     "C07": dict(
         text="Proved in Lean over the abstract runner (any module DAG, sharing, pass behaviour, fuel and prior state): a completed visit "
         "leaves its pass done on everything reachable; a pass class never touches another class's done set; a module a pass completed on "
-        "is never rewritten by it again; re-visiting is a no-op; a visit touches only the visited module and modules below it. Not "
-        "proved: that every interleaving of calls ends in the canonical state (needs per-pass stability facts) — decided by "
+        "is never rewritten by it again; re-visiting is a no-op; a visit touches only the visited module and modules below it; and "
+        "history_independent: after any sequence of elaborate calls over any lists of tops, from the fresh state, every module below any top "
+        "of any call has all passes done and is in the canonical state C n x (same as elaborated alone; elaborating again changes nothing) - "
+        "under the explicit hypothesis Stable (pass k on x in state C k x yields C (k+1) x whatever later canonical state its descendants "
+        "are in, and does not fail). That the concrete passes are Stable is decided by "
         "correspondence: all orders / kinds / groupings of elaborate / to_proto / netlist calls over the modules of generated design DAGs "
         "(shared children, bundle ports, bundle-port reference groups), parents built before or after their children were elaborated, "
         "each history in a fresh process, packages compared byte for byte with fresh single-call packages; freeze checked.",
